@@ -138,6 +138,88 @@ RAISERS = {"raise:BodyError": BodyError, "raise:KeyboardInterrupt": KeyboardInte
            "raise:AssertionError": AssertionError, "raise:NotImplementedError": NotImplementedError}
 
 
+def failed_serialization(ext, rid):
+    """an EARLIER, unrelated serialization that fails half-way in the same thread (a chart that cannot be
+    written after properties and a good chart have been): nothing of it may show up in later saves"""
+    import simfile as _sf
+    try:
+        if ext == "ssc":
+            p = _sf.ssc.SSCSimfile.blank()
+            p.title = "left over"
+            c = _sf.ssc.SSCChart.blank()
+            c["CHARTNAME"] = "left over"
+            p.charts.append(c)
+            bad = _sf.ssc.SSCChart.blank()
+            del bad["NOTES"]
+            p.charts.append(bad)
+        else:
+            p = _sf.sm.SMSimfile.blank()
+            p.title = "left over"
+            c = _sf.sm.SMChart.blank()
+            c.description = "left over"
+            p.charts.append(c)
+            p.charts.append("not a chart")
+        (str(p) if rid % 4 == 0 else p.serialize(__import__("io").StringIO()))
+    except Exception:  # noqa
+        return True
+    return False
+
+
+def run_errors_scenario(job):
+    """mutate(..., errors=<lenient handler>) on a file in a legacy code page, with an edit the code page lacks.
+    Only C06's clause is judged: IF the save fails, the input still holds its original bytes."""
+    import simfile
+    rid, (fsk, ext, enc, handler, bak, wide) = job
+    text = base_text(ext, TITLES.get(enc, "t"))
+    content = text.encode(enc)
+    tmp = mem = None
+    out = {"id": rid, "kind": "errors", "fs": fsk, "ext": ext, "enc": enc, "handler": handler, "bak": bak, "exc": "", "inputsame": True,
+           "baksame": True}
+    try:
+        if fsk == "native":
+            tmp = tempfile.mkdtemp(prefix="vlib_")
+            path = os.path.join(tmp, "song." + ext)
+            bpath = os.path.join(tmp, "song.bak")
+            with open(path, "wb") as f:
+                f.write(content)
+            kw = {}
+            read = lambda p: open(p, "rb").read() if os.path.exists(p) else None      # noqa
+        else:
+            from fs.memoryfs import MemoryFS
+            mem = MemoryFS()
+            path, bpath = "/song." + ext, "/song.bak"
+            mem.writebytes(path, content)
+            kw = {"filesystem": mem}
+            read = lambda p: mem.readbytes(p) if mem.exists(p) else None               # noqa
+        if bak:
+            kw["backup_filename"] = bpath
+        try:
+            with simfile.mutate(path, errors=handler, **kw) as sf:
+                sf["XWIDE"] = wide
+        except BaseException as e:  # noqa
+            out["exc"] = type(e).__name__
+            out["inputsame"] = (read(path) == content)
+            b = read(bpath)
+            out["baksame"] = (not bak) or b is None or b == content or b.decode(enc, "replace").replace("\r\n", "\n") == text
+        return out
+    finally:
+        if tmp:
+            shutil.rmtree(tmp, ignore_errors=True)
+        if mem is not None:
+            mem.close()
+
+
+def errors_jobs():
+    jobs = []
+    for fsk in ("native", "memory"):
+        for ext in ("sm", "ssc"):
+            for enc, wide in (("cp1252", "猫"), ("cp932", "고"), ("cp949", "ก"), ("utf-8", "\udc80")):
+                for handler in ("replace", "ignore", "backslashreplace", "xmlcharrefreplace"):
+                    for bak in (False, True):
+                        jobs.append((fsk, ext, enc, handler, bak, wide))
+    return list(enumerate(jobs))
+
+
 def run_scenario(sc, rid):
     """execute one mutate scenario for real; returns the Trace_Library record (+ harness-only '_' fields)"""
     import simfile
@@ -179,6 +261,8 @@ def run_scenario(sc, rid):
         def put(n, b):
             mem.writebytes("/" + n, b)
     try:
+        if sc.get("poison", rid % 2 == 0):
+            failed_serialization(ext, rid)
         put(names["in"], sc["content"])
         put(other, b"#TITLE:other;\n")
         if sc.get("out_exists") and names["out"]:
